@@ -56,6 +56,12 @@ def run(model, rep, tier):
               "every node is written exactly once, sorted or in map order", "node iteration in the zone writer changed", stmt="all-nodes")
     rep.check("origin_style = style.replace(origin=None) l = '$ORIGIN ' + self.origin.to_styled_text(origin_style)" in t, "R-09.1", zs.qualname, where(zs, zs.node), "$ORIGIN is written absolute",
               "$ORIGIN is relativized to itself", stmt="origin-directive")
+    # $TTL is written exactly when the TTL column may be omitted: both sides must test `default_ttl is not None`
+    zt = [n for n in ast.walk(zs.node) if isinstance(n, ast.If) and any("$TTL" in src(x) for x in n.body)]
+    rt_src = " ".join(src(rs.node).split())
+    okk = len(zt) == 1 and atoms(normalise_compare(zt[0].test)) == [("style.default_ttl", "is not", "None")] and "style.default_ttl is not None and self.ttl == style.default_ttl" in rt_src
+    rep.check(okk, "R-09.1", zs.qualname, where(zs, zt[0] if zt else zs.node), "`$TTL n` is emitted under `default_ttl is not None`, the same condition under which records omit their TTL column",
+              "the $TTL directive and the omission of the TTL column are decided by different conditions (e.g. truthiness vs `is not None`): with default_ttl=0 records lose their TTL on re-read", stmt="ttl-directive-condition")
     nd = model.func("dns.node.Node.to_styled_text")
     t = " ".join(src(nd.node).split())
     rep.check("for rds in self.rdatasets:" in t and "rds.to_styled_text" in t, "R-09.1", nd.qualname, where(nd, nd.node), "every rdataset of the node is written", "node writer skips rdatasets", stmt="all-rdatasets")
@@ -94,6 +100,14 @@ def run(model, rep, tier):
             before = [m for (m, c2) in calls_with_nodes(cfg) if "self.txn." in src(c2.func) and g.id in cfg.reachable([m.id]) and m.id not in cfg.reachable([y for (y, k) in cfg.succ[g.id]])]
             rep.check(not before, "R-09.2", q, where(f, g.ast), "no transaction call precedes the in-zone test", "the transaction is touched before the in-zone test", stmt="no-effect-before-gate")
     rep.floor("R-09.2", n_add, 2)
+    # an explicit owner is remembered BEFORE the in-zone test, so continuation lines of an out-of-zone owner are dropped too
+    f = model.func("dns.zonefile.Reader._rr_line")
+    cfg = CFG(f.node, implicit_exc=False)
+    stores = [n for n in cfg.nodes if isinstance(n.ast, ast.Assign) and any(src(t) == "self.last_name" for t in n.ast.targets)]
+    gates = [t_ for t_ in cfg.nodes if t_.kind == "test" and isinstance(t_.ast, ast.If) and atoms(normalise_compare(t_.ast.test)) == [("name.is_subdomain(self.zone_origin)", "falsy", "")]]
+    okk = len(stores) >= 1 and len(gates) == 1 and all(gates[0].id in cfg.reachable([s_.id]) and s_.id not in cfg.reachable([y for (y, k) in cfg.succ[gates[0].id]]) for s_ in stores)
+    rep.check(okk, "R-09.2", f.qualname, where(f, stores[0].ast if stores else f.node), "the owner of the line is recorded in last_name before the in-zone test",
+              "last_name is updated only after the in-zone test: whitespace-led lines after an out-of-zone owner inherit the previous in-zone owner and foreign data is loaded", stmt="last-name-before-gate")
     # the force_name exemption really is caller-supplied
     rr = model.func("dns.zonefile.Reader._rr_line")
     t = " ".join(src(rr.node).split())
@@ -150,6 +164,8 @@ WITNESSES = [
      "old": "        for check in self._check_put_rdataset:\n            check(self, name, rdataset)\n        self._put_rdataset(name, rdataset)", "new": "        self._put_rdataset(name, rdataset)\n        for check in self._check_put_rdataset:\n            check(self, name, rdataset)"},
     {"id": "c09-writer-refuses", "rule": "R-09.1", "file": "dns/node.py", "expect": "fires",
      "old": "        for rds in self.rdatasets:\n            if len(rds) > 0:", "new": "        for rds in self.rdatasets:\n            if rds.ttl > 0x7FFFFFFF:\n                raise ValueError(\"bad ttl\")\n            if len(rds) > 0:"},
+    {"id": "c09-ttl-directive-truthiness", "rule": "R-09.1", "file": "dns/zone.py", "expect": "fires",
+     "old": "            if style.default_ttl is not None:\n                l = f\"$TTL {style.default_ttl}\"", "new": "            if style.default_ttl:\n                l = f\"$TTL {style.default_ttl}\""},
     {"id": "c09-twin-gate-positive-form", "rule": "R-09.2", "file": "dns/zonefile.py", "expect": "silent",
      "old": "                self.last_name = self.tok.as_name(token, self.current_origin)", "new": "                new_name = self.tok.as_name(token, self.current_origin)\n                self.last_name = new_name"},
 ]
